@@ -1120,6 +1120,14 @@ def driver_configs(tier, seed, algs=None):
                         caps=[0, 1, 2, 3, 5, 8])
             base.update(kw)
             add(alg, **base)
+    # ---- warm starts that carry non-unit weights (e.g. an earlier normalised result), normalisation OFF: after any sweep the
+    #      scale sits in the factors and the weights are all ones (budget 1 is a path of its own)
+    for wk in ("positive", "mixed"):
+        for init_as in ("parafac2", "cp"):
+            add("parafac2", shape=[3, 0, 4], rows=[5, 5, 5] if init_as == "cp" else [4, 5, 4], rank=2, data="generic", init="user", init_weights=wk,
+                init_as=init_as, tol="tiny", normalize=False, caps=[0, 1, 2, 3])
+        add("parafac", shape=[4, 5, 3], rank=2, data="generic", init="user", init_weights=wk, tol="zero", normalize=False, caps=[0, 1, 2, 3])
+        add("nn_parafac_hals", shape=[4, 5, 3], rank=2, data="nonneg", init="user", init_kind="nonneg", init_weights="positive", tol="tiny", normalize=False, caps=[0, 1, 2, 3])
     # ---- three-way option interactions and paths that need many sweeps
     #  (a) missing entries x line search: an accepted jump replaces the imputed tensor AND its norm (line iterations are 6, 8, ...)
     for j in range(6 if thorough else 3):
